@@ -1,6 +1,7 @@
 import NxProofs.Timers
 import NxProofs.Silence
 import NxProofs.KeepAlive
+import NxProofs.Settle
 import NxProofs.Gating
 import NxProps.C04
 /-!
@@ -28,8 +29,10 @@ and every timer that fires (`keepalive_survives_*`), and pushed forward by at mo
 (`keepalive_while_time_passes`). `established_silence_bound` composes the two: whatever the connection has been
 through, if a keep-alive is due by `s + ping_timeout` and nothing is heard after `s`, the connection is dead once the
 clock has passed `s + ping_timeout + (resend_limit+1)·resend_timeout`.
-Not proved (runtime, observed by the tie): that anyio wakes a waiter whose event is set / whose stream is EOF'd, and
-that the run settles (`Settled` is a hypothesis; it is what `advance` reaches with enough fuel).
+`advance_settles` discharges the `Settled` hypothesis: with a positive resend period and positive repeat periods every firing
+round moves the earliest deadline strictly forward, so `T + 1` rounds reach a state with nothing due at `T`
+(`silence_bound_total`, `accepted_connection_dies_in_silence`).
+Not proved (runtime, observed by the tie): that anyio wakes a waiter whose event is set / whose stream is EOF'd.
 -/
 namespace Nx.C02
 open Nx Nx.Prudp Nx.L1
@@ -167,6 +170,24 @@ theorem established_silence_bound (env : Env) (fuel T s : Nat) (c : Conn) (h : c
     (hT : s + c.pingTimeout + (c.resendLimit + 1) * c.resendTimeout ≤ T)
     (hset : (Conn.advance env fuel T c).1.Settled T) : (Conn.advance env fuel T c).1.Dead :=
   L1.silence_bound env fuel T _ c (ka_doomed c _ h) hT hset
+
+/-- `advance` settles (no fuel hypothesis left): nothing is due at `T` after `T + 1 - lo` rounds -/
+theorem advance_settles (env : Env) (T fuel : Nat) (c : Conn) (lo : Nat) (hrt : 0 < c.resendTimeout) (hrp : RepPos c)
+    (hlo : ∀ t ∈ evs c, lo ≤ t.deadline) (hf : T + 1 ≤ lo + fuel) : (Conn.advance env fuel T c).1.Settled T :=
+  L1.advance_settles env T fuel c lo hrt hrp hlo hf
+
+/-- the silence bound with every hypothesis about the run discharged -/
+theorem silence_bound_total (env : Env) (T D : Nat) (c : Conn) (h : c.Doomed D) (hT : D ≤ T)
+    (hrt : 0 < c.resendTimeout) (hrp : RepPos c) : (Conn.advance env (T + 1) T c).1.Dead :=
+  L1.silence_bound_total env T D c h hT hrt hrp
+
+/-- a server-side connection that never hears anything after it was accepted at `now` is dead by
+    `now + ping_timeout + (resend_limit+1)·resend_timeout` — no hypothesis about the run -/
+theorem accepted_connection_dies_in_silence (env : Env) (c : Conn) (now : Time) (T : Nat)
+    (hrt : 0 < c.resendTimeout) (hpt : 0 < c.pingTimeout)
+    (hT : now + c.pingTimeout + (c.resendLimit + 1) * c.resendTimeout ≤ T) :
+    (Conn.advance env (T + 1) T (c.serve now)).1.Dead :=
+  L1.silence_bound_total env T _ (c.serve now) (served_is_doomed c now) hT hrt (serve_reppos c now hpt)
 
 /-! non-vacuity: a fresh client after `handshake()` is exactly in the situation of `connect_bound` -/
 example :
